@@ -109,6 +109,17 @@ def falsify_C04(ctx):
             target = ("chain", base, base + ln - 1)
         elif kind == "tm":
             i = rng.randrange(nt)
+            if rng.random() < 0.35:
+                # bursts of the analysed timer (jitter >= period: several instances released together) under
+                # higher-priority timers with larger WCETs
+                T0 = rng.randint(10, 30)
+                cbs[i]["arr"] = ("spo", T0, rng.randint(T0, 2 * T0 + 2))
+                cbs[i]["cost"] = rng.randint(1, 3)
+                for c in cbs:
+                    if c["kind"] == "T" and c["prio"] < cbs[i]["prio"]:
+                        c["cost"] = rng.randint(3, 6)
+                        c["arr"] = ("per", rng.randint(6, 14)) if rng.random() < 0.6 else c["arr"]
+                dist["timer_bursts"] = dist.get("timer_bursts", 0) + 1
             hp = [c for c in cbs if c["kind"] == "T" and c["prio"] < cbs[i]["prio"]]
             lower = [c for j, c in enumerate(cbs) if j != i and not (c["kind"] == "T" and c["prio"] < cbs[i]["prio"])]
             B = max([c["cost"] - 1 for c in lower], default=0)
@@ -214,7 +225,7 @@ def parse_ros_workload_op(op):
     for _ in range(m):
         i += 1                                   # the assumed bound in the op is irrelevant here
         a, i = fals_analyses.parse_arr(t, i)
-        if a[0] not in ("spo", "per"):
+        if a[0] not in ("spo", "per", "cur"):
             raise fals_analyses.Unsupported(a[0])
         c, i = fals_analyses.parse_cost(t, i)
         if c[1] < 1:
@@ -350,6 +361,23 @@ def falsify_C05(ctx):
                         if x["tag"].startswith("P"):
                             x["tag"] = f"P {x['prio']}"
             dist["backlog"] = dist.get("backlog", 0) + 1
+        elif fam < 0.28:
+            # own bursts: a callback whose delta-min curve lets a few instances arrive closer together
+            # than its WCET (own backlog, self-interference windows that end exactly on a step)
+            if rng.random() < 0.6:
+                sup = ("ded",)
+            c = rng.randint(3, 7)
+            g = rng.randint(max(1, c - 3), c + 1)
+            k = rng.randint(2, 4)
+            dm = [g * (x + 1) for x in range(k)] + [rng.randint(60, 150) + g * k]
+            kindb = rng.choice(["T", "P"])
+            cbs.append({"kind": kindb, "prio": 0, "cost": c, "arr": ("cur", dm),
+                        "tag": ("T" if kindb == "T" else ("P 0" if rng.random() < pknown else "U"))})
+            if rng.random() < 0.5:
+                T = rng.randint(20, 60)
+                cbs.append({"kind": "P", "prio": 1, "cost": rng.randint(1, 3), "arr": ("spo", T, 0),
+                            "tag": ("P 1" if rng.random() < pknown else "U")})
+            dist["own_bursts"] = dist.get("own_bursts", 0) + 1
         elif fam < 0.5:
             # few callbacks, long callbacks, bursts of two or three instances (jitter close to / above
             # the period), often a dedicated processor: the caps on polled interference are binding
